@@ -112,7 +112,7 @@ def write_results():
         m = json.load(open(mp))
         ch = m.get("checks", {})
         caught = [k for k, v in ch.items() if v["exit"] == 1 and v["violations"] > 0]
-        rows.append("| %s | %s | %s | %s |" % (name, m["summary"].replace("|", "/")[:140], ", ".join(caught) if caught else ("MISSED (%s)" % ", ".join(ch) if ch else "not run"),
+        rows.append("| %s | %s | %s | %s |" % (name, m["summary"].replace("|", "/")[:140], ", ".join(caught) if caught else (("outside the property's domain: " + m["out_of_domain"]) if m.get("out_of_domain") else ("MISSED (%s)" % ", ".join(ch) if ch else "not run")),
                                                (ch[caught[0]]["first"].split("clause=")[-1][:70] if caught else "")))
     with open(os.path.join(SEEDED, "RESULTS.md"), "w") as f:
         f.write("# Seeded changes and the checks that catch them\n\nEach change was written by a sub-agent that saw only the property text and a scratch worktree; "
